@@ -32,11 +32,13 @@ CHECKS = {
         'set_threshold stores float(threshold) only and returns self. That roc_auc_score computes ROC-AUC is trusted (scikit-learn).'),
   note=TB + ' Distances themselves are what C01/C02 derive.'),
  'C03': dict(
-  technique='static analysis: library-signature conformance of all resolved call sites (inspect), must-pass-through (dominance) and value-identity analysis of every fit by abstract interpretation of the AST',
+  technique='static analysis: library-signature conformance of all resolved call sites (inspect), must-pass-through (dominance) and value-identity analysis of every fit, symbolic shape domain (path-sensitive), complex-dtype taint, definite assignment with path conditions, typestate of n_features_in_',
   text=('Decides structural necessary conditions of C03 for all 17 estimators and every path through fit: every call into '
         'numpy/scipy/scikit-learn is accepted by the installed signature (otherwise every fit raises TypeError), every normal '
-        'exit of fit returns the estimator itself, and components_ is assigned on every path to every exit. Numeric validity '
-        '(finite / PSD values) is NOT decided.'),
+        'exit of fit returns the estimator itself, components_ is assigned on every path to every exit and has symbolic shape '
+        '(k, d) on every option path (k the checked n_components), is not computed from complex-typed library results, no local is '
+        'read unbound on a feasible option path (no ndarray compared with a string), and n_features_in_ is the last axis of the '
+        'validated array of the last fit. Numeric validity (finite / PSD values) is NOT decided.'),
   note=TB),
  'C05': dict(
   technique='static analysis: taint abstract interpretation (single validated choke point), value-flow of the preprocessor to every check_input call site, path-condition and who-may-call rules, structural normal form of tuple formation, try/except exception-class resolution',
@@ -83,7 +85,9 @@ CHECKS = {
         'argsort picks on the ordered axis; every np.cov call on samples-by-features data passes rowvar=False; Covariance.fit stores L '
         'with L^T L = exactly one (pseudo-)inversion of cov(X); RCA centres each chunk with the mean of exactly its own rows, keeps only '
         'rows with chunk != -1, and _inv_sqrtm is V Diag(w^-1/2) V^T; LFDA keeps eigenvectors by decreasing eigenvalue, stores vecs.T '
-        'and handles exactly the documented embedding_type values. Equality of the learned matrix with the documented formula on any '
+        'and handles exactly the documented embedding_type values; the LFDA scatter accumulation statements, as linear combinations '
+        'with exact rational coefficients in n and n_c, equal the pairwise-defined local scatters (this rule found the tSw sign defect, '
+        'repaired); RCA\'s inner covariance uses bias=1 and every chunk id is centred. Equality of the learned matrix with the documented formula on any '
         'dataset (scatter algebra, whitening identity, singular covariances) is NOT decided. Known finding: LFDA local-scale axis.'),
   note=TB),
  'C10': dict(
@@ -92,7 +96,8 @@ CHECKS = {
         'rejecting branch changes nothing but the learning rate, L is only the initialisation or an accepted candidate (so accepted '
         'objectives are non-increasing and the result is never worse than the init; zero iterations return the init); NCA/MLKR hand '
         'x0 = init.ravel() to scipy.optimize.minimize and store the reshaped result; the (value, gradient) callback returns both with '
-        'the same sign factor, bound to a negative literal for NCA; np.fill_diagonal(dist, inf) precedes the soft-max on every path. '
+        'the same sign factor, bound to a negative literal for NCA; np.fill_diagonal(dist, inf) precedes the soft-max on every path; LMNN weights pull by reg and push by 1-reg in G, the objective and the returned 2 L G; '
+        'MLKR\'s objective receives the validated (X, y) themselves. '
         'That value and gradient EQUAL the documented objective and its derivative is NOT decided.'),
   note=TB),
  'C11': dict(
@@ -100,14 +105,17 @@ CHECKS = {
   text=('Decides: ITML\'s duals start at zero and are only decreased by alpha = min(lambda[e], .) at the same index e, so all '
         'lambda_i >= 0 is an inductive invariant of both projection loops; between the prior and components_from_metric the matrix is '
         'written only by rank-one updates A += outer(Av, Av*beta) (Sherman-Morrison: M^-1 - M0^-1 is a combination of v v^T); the prior '
-        'is requested strictly PD. Tightness/inactivity at convergence, KKT optimality and "prior returned unchanged" are NOT decided.'),
+        'is requested strictly PD and computed from the training pairs themselves; the step alpha, the rank-one coefficient beta and the '
+        'slack update of both loops equal the documented cyclic Bregman projection as exact rational functions. Tightness/inactivity at convergence, KKT optimality and "prior returned unchanged" are NOT decided.'),
   note=TB),
  'C12': dict(
   technique='static analysis: guard normalisation of the acceptance test, symbolic spectral form of the SPD floor, dependence sets of loss vs search direction (sibling agreement), FRESH rule for the weights',
   text=('Decides: s_best starts as the loss at the prior, (M_best, s_best) change only under cur_s < s_best, M is replaced only by a '
         'non-None M_best and components_ comes from M (never worse than the prior); every candidate is V Diag(max(w, eps>0)) V^T; the '
         'search direction reads every input the loss reads (metric, vab, vcd, prior_inv, w_) - also for MMC\'s value/derivative pairs; '
-        'the caller\'s weights are not modified. Stationarity and global minimality are NOT decided.'),
+        'the caller\'s weights are not modified; the per-constraint loss is w (sqrt(d_ab)-sqrt(d_cd))^2 and the gradient coefficients '
+        'are its symbolic derivatives, the regulariser is tr(M M0^-1) - logdet M with gradient M0^-1 - M^-1; the main loop stops only '
+        'on the documented criteria. Stationarity and global minimality are NOT decided.'),
   note=TB),
  'C13': dict(
   technique='static analysis: dependence sets at the graphical-lasso call site (which element of the prior pair, which hyper-parameters, labels), dominance of the result vetting over the store of components_, exception-class resolution',
